@@ -65,12 +65,90 @@ def buffer_pointers(f):
     return derived
 
 
+SIZE_MEMBERS = ("d_size", "sh_size")
+
+
+def size_derived(f, size_fields=()):
+    """decl ids of locals whose value is computed from the size of a section (d_size / sh_size, another such
+    local, or a field known to hold a size-derived bound)"""
+    out = set()
+
+    def mentions(e):
+        for x in walk(e):
+            if x["k"] == "MemberExpr" and (f.decl(x) or {}).get("n") in SIZE_MEMBERS + tuple(size_fields):
+                return True
+            if x["k"] == "DeclRefExpr" and x.get("d") in out:
+                return True
+        return False
+    changed = True
+    while changed:
+        changed = False
+        for n in f.nodes():
+            tgt = rhs = None
+            if n["k"] == "VarDecl" and n.get("c") and n["c"][0] is not None:
+                tgt, rhs = n.get("d"), n["c"][0]
+            elif n["k"] == "BinaryOperator" and n.get("op") == "=":
+                l = strip_casts(n["c"][0])
+                if l is not None and l["k"] == "DeclRefExpr":
+                    tgt, rhs = l.get("d"), n["c"][1]
+            if tgt is not None and tgt not in out and mentions(rhs):
+                out.add(tgt)
+                changed = True
+    return out
+
+
+def size_fields_of(funcs):
+    """names of struct fields that some analysed function assigns from a size-derived expression
+    (gnu_ht::end = ht_data + nb_words)"""
+    fields = set()
+    for _ in range(2):
+        for f in funcs:
+            if f.dep:
+                continue
+            loc = size_derived(f, fields)
+            for n in f.nodes():
+                if n["k"] == "BinaryOperator" and n.get("op") == "=":
+                    l = strip_casts(n["c"][0])
+                    if l is not None and l["k"] == "MemberExpr" and (f.decl(l) or {}).get("k") == "Field":
+                        if any((x["k"] == "MemberExpr" and (f.decl(x) or {}).get("n") in SIZE_MEMBERS + tuple(fields)) or
+                               (x["k"] == "DeclRefExpr" and x.get("d") in loc) for x in walk(n["c"][1])):
+                            fields.add(f.decl(l)["n"])
+    return fields
+
+
+def is_size_guard(f, cond, T, loc, fields):
+    return cond is not None and any(
+        x["k"] == "MemberExpr" and (f.decl(x) or {}).get("n") in SIZE_MEMBERS + tuple(fields)
+        or x["k"] == "DeclRefExpr" and ((f.decl(x) or {}).get("n") in T["size_locals"] or x.get("d") in loc)
+        for x in walk(cond))
+
+
+def validators(funcs, T, fields):
+    """usr of functions that return false under a size guard: `if (!setup_gnu_ht(..)) return false;` in a caller
+    is then a size test of the caller"""
+    out = set()
+    for f in funcs:
+        if f.dep:
+            continue
+        loc = size_derived(f, fields)
+        for n in f.nodes():
+            if n["k"] == "IfStmt" and is_size_guard(f, n["c"][0], T, loc, fields):
+                for r in walk(n["c"][1]):
+                    if r["k"] == "ReturnStmt" and r.get("c") and strip_casts(r["c"][0]) is not None and \
+                            strip_casts(r["c"][0])["k"] == "CXXBoolLiteralExpr" and strip_casts(r["c"][0]).get("v") == 0:
+                        out.add(f.u)
+    return out
+
+
 def check_elfbound(ctx, P, funcs, T):
     n_sites = 0
+    fields = size_fields_of(funcs)
+    valid = validators(funcs, T, fields)
     for f in sorted(funcs, key=lambda x: (x.file, x.l0)):
         if f.dep or f.cfg() is None:
             continue
         derived = buffer_pointers(f)
+        loc = size_derived(f, fields)
         # fields of a struct filled from a buffer elsewhere (gnu_ht::buckets ...) are treated through the table
         table_fields = set(T["buffer_fields"])
         sites = []
@@ -98,10 +176,8 @@ def check_elfbound(ctx, P, funcs, T):
         for n in f.nodes():
             if n["k"] in ("IfStmt", "WhileStmt", "ForStmt", "DoStmt"):
                 cond = n["c"][0] if n["k"] in ("IfStmt", "WhileStmt") else n["c"][1]
-                if cond is not None and any(
-                        x["k"] == "MemberExpr" and (f.decl(x) or {}).get("n") in ("d_size", "sh_size")
-                        or x["k"] == "DeclRefExpr" and (f.decl(x) or {}).get("n") in T["size_locals"]
-                        for x in walk(cond)):
+                if is_size_guard(f, cond, T, loc, fields) or (cond is not None and any(
+                        x["k"] == "CallExpr" and (f.decl(x) or {}).get("u") in valid for x in walk(cond))):
                     guards.append(n)
         n_sites += len(sites)
         first = min(sites, key=lambda t: (t[0]["l"], t[0]["i"]))[0]
